@@ -35,6 +35,16 @@ func payload(r *rand.Rand, n int, sevenBit bool) []byte {
 			b[i] = byte(r.Intn(256))
 		}
 	}
+	if n > 0 && r.Intn(6) == 0 { // ... ending (or consisting) of bytes other software strips or stops at: NUL, blank, line end
+		end := [][]byte{{0}, {0, 0, 0}, {0x20}, {0x0A}, {0x0D, 0x0A}}[r.Intn(5)]
+		if r.Intn(5) == 0 {
+			for i := range b {
+				b[i] = 0
+			}
+		} else if len(end) <= n {
+			copy(b[n-len(end):], end)
+		}
+	}
 	return b
 }
 
